@@ -45,6 +45,9 @@ func c14TakeAddress(g *c14Gen, n int) [][2]*c14V {
 	var pairs [][2]*c14V
 	for i := 0; i < n; i++ {
 		t := g.kindT(g.randIntSlotKind())
+		if g.rng.Intn(3) == 0 {
+			t = g.kindT(kindByName["int"]) // by far the most common kind in real sessions
+		}
 		if g.rng.Intn(5) == 0 {
 			// named int-slot type
 			g.declType()
@@ -60,7 +63,7 @@ func c14TakeAddress(g *c14Gen, n int) [][2]*c14V {
 		pn := g.name("p")
 		g.topDecl("var " + pn + " " + pt.Go)
 		g.noteAddr(x.T)
-		switch g.rng.Intn(4) {
+		switch g.rng.Intn(6) {
 		case 0:
 			g.step(pn+" := &"+x.Name, pn+" = &"+x.Name)
 			g.feat("addr:short-decl")
@@ -72,7 +75,15 @@ func c14TakeAddress(g *c14Gen, n int) [][2]*c14V {
 			g.feat("addr:var-typed")
 		default:
 			fn := g.name("f")
-			d := fmt.Sprintf("func %s() %s { return &%s }", fn, pt.Go, x.Name)
+			// the address is taken 0-3 block scopes below the function scope (each block has a local of its own)
+			depth := g.rng.Intn(4)
+			open, close := "", ""
+			for i := 1; i <= depth; i++ {
+				open += fmt.Sprintf("{ blk%d := %d; _ = blk%d; ", i, i, i)
+				close += " }"
+			}
+			d := fmt.Sprintf("func %s() %s { %sreturn &%s%s }", fn, pt.Go, open, x.Name, close)
+			g.feat(fmt.Sprintf("addr:returned-by-function-block-depth-%d", depth))
 			g.topDecl(d)
 			g.step(d, "")
 			g.funcs = append(g.funcs, &c14F{Name: fn, Ret: pt})
